@@ -45,13 +45,18 @@ Definition mode_c11 := mkMode true false false false false.
 Definition mode_c12 := mkMode true true true false false.
 Definition imp (a b : bool) : bool := negb a || b.
 
+Definition is_live (w : world) (sid : N) : bool :=
+  match sget (sessions w) sid with Some s => match s_api s with None => true | Some _ => false end | None => false end.
+
 Definition step_ok (md : mode) (w : world) (o : obs) (e : ostep) : bool :=
   imp (m_api md) (forallb (fun '(sid, r) => ores_eqb (match sget (sessions w) sid with Some s => s_api s | None => None end) r) (os_api e)) &&
   imp (m_tables md) (kseteq (map fst (syncs w)) (os_syncs e) && kseteq (map fst (rbcs w)) (os_rbcs e) &&
                      kseteq (map fst (cls w)) (os_cls e) && Bool.eqb (dkg w) (os_dkg e)) &&
   imp (m_reached md) (list_eqb reach_eqb (o_reached o) (os_reached e)) &&
-  imp (m_inits md) (list_eqb init_eqb (o_inits o) (os_inits e)) &&
-  imp (m_dests md) (all2 dest_ok (o_dests o) (os_dests e)) &&
+  (* what a backend is initialised with matters for sessions that are still running: a continuation that fires after
+     its session ended may or may not build a signer before it notices *)
+  imp (m_inits md) (list_eqb init_eqb (filter (fun i => is_live w (fst i)) (o_inits o)) (filter (fun i => is_live w (fst i)) (os_inits e))) &&
+  imp (m_dests md) (all2 dest_ok (filter (fun d => is_live w (fst (fst d))) (o_dests o)) (filter (fun d => is_live w (fst (fst d))) (os_dests e))) &&
   imp (m_api md) (Bool.eqb (o_panic o) (os_panic e)).
 
 Fixpoint run_steps (md : mode) (mm : mmap) (w : world) (l : list ostep) (i : nat) : option nat :=
